@@ -42,3 +42,55 @@ func VerifHarness_C03_LaterWritesInvisible() {
 	}
 	sym.Reach("snapshot-reads")
 }
+
+// VerifHarness_C03_SnapshotList: the live-snapshot list that compactions read
+// (toSlice for the stripes, earliest for elision and delete-only compactions):
+// snapshots are opened in creation order with non-decreasing sequence numbers
+// and closed in any order; the list always yields exactly the still-open
+// snapshots' sequence numbers in ascending order, and earliest() is the
+// smallest of them (or "none").
+func VerifHarness_C03_SnapshotList() {
+	var l snapshotList
+	l.init()
+	n := 1 + sym.Choose("snapshots", 3)
+	snaps := make([]*Snapshot, n)
+	var prev base.SeqNum
+	for i := range snaps {
+		s := base.SeqNum(sym.U8("seqnum"))
+		sym.Assume(s >= prev)
+		prev = s
+		snaps[i] = &Snapshot{seqNum: s}
+		l.pushBack(snaps[i])
+	}
+	open := make([]bool, n)
+	for i := range open {
+		open[i] = true
+	}
+	for step, k := 0, sym.Choose("closes", n+1); step < k; step++ {
+		i := sym.Choose("close-which", n)
+		if !open[i] {
+			continue
+		}
+		l.remove(snaps[i])
+		open[i] = false
+	}
+	var want []base.SeqNum
+	for i := range snaps {
+		if open[i] {
+			want = append(want, snaps[i].seqNum)
+		}
+	}
+	got := l.toSlice()
+	sym.Assert(len(got) == len(want) && l.count() == len(want) && l.empty() == (len(want) == 0), "open-snapshots-listed")
+	if len(got) == len(want) {
+		for i := range got {
+			sym.Assert(got[i] == want[i], "listed-in-ascending-order")
+		}
+	}
+	if len(want) == 0 {
+		sym.Assert(l.earliest() == base.SeqNum(^uint64(0)), "no-snapshot-no-earliest")
+	} else {
+		sym.Assert(l.earliest() == want[0], "earliest-is-the-smallest-open-snapshot")
+	}
+	sym.Reach("snapshot-list")
+}
